@@ -6,14 +6,73 @@ import subprocess
 
 VERIF = os.path.dirname(os.path.dirname(os.path.abspath(__file__)))
 
+TRUST = ("Trusts SQLite per-call atomicity, the Lightning model (stands in for LND/CLN), the harness registry/projection "
+         "(facts only, self-tested) and TLC. Real-code coverage is what the recorded traces contain; the exhaustive part is the "
+         "bounded model.")
+SEQ = ("TLC generates histories as behaviours of MintGen.tla (simulation, seeded); each is replayed on a fresh real mint; every "
+       "recorded step (request facts, actual reply, raw-store projection) is validated by TLC against MintAPI (MintTrace.tla): "
+       "verdict vs Causes, allowed post-states, and every state invariant in every state. ")
+
 CHECKS = {
     "C01": dict(
         category="model_checking", design_ref="§5 C01",
-        technique="TLA+ spec (MintAPI) + TLC: generated histories replayed on the real mint, recorded traces validated by TLC",
-        text="TLC-generated adversarial histories (every way of re-presenting a used secret) are replayed on the real mint; "
-             "every recorded step is validated by TLC against MintAPI (verdict, post-state projection, NoDoubleSpend/SpentForever "
-             "in every state). Exhaustive only for the bounded model (MintModel.cfg); real-code coverage is sampled by seed.",
-        note="Trusts SQLite per-call atomicity, the Lightning model, the harness registry/projection (facts only) and TLC."),
+        technique="TLA+ MintAPI + TLC: generated histories replayed, traces validated; all interleavings of concurrent requests validated by a TLC linearizability search",
+        text=SEQ + "Concurrency: for 13 (thorough 16) scenarios of 2-3 requests on one secret the harness enumerates every "
+             "Mazurkiewicz-inequivalent interleaving at storage/LN-call granularity on the real mint (sleep sets, complete), and TLC "
+             "(MintAccept.tla) searches a linearization of each execution; none found = double spend.",
+        note=TRUST),
+    "C02": dict(
+        category="model_checking", design_ref="§5 C02",
+        technique="TLA+ MintAPI value ledger (msat) + TLC trace validation against a fee-charging Lightning model",
+        text=SEQ + "The NoInflation invariant ((outstanding + owed) * 1000 + lnOut <= lnIn) and the guard feeLimit <= feeReserve are "
+             "evaluated by TLC after every real step, with fees in {0,1,100,999,1000,2500} ppk and a backend that charges the whole limit.",
+        note=TRUST),
+    "C03": dict(
+        category="model_checking", design_ref="§5 C03",
+        technique="TLA+ MintAPI mint-quote machine + TLC: generated histories, and all interleavings of mint/poll/notification validated by linearizability search",
+        text=SEQ + "Concurrency: every interleaving of up to three mint requests with different outputs, a quote poll and the "
+             "(gated) invoice notification goroutine is executed on the real mint and validated by TLC (MintAccept.tla); "
+             "IssueOncePerPayment in every state; NUT-20 signature classes from the generator.",
+        note=TRUST),
+    "C05": dict(
+        category="model_checking", design_ref="§5 C05",
+        technique="TLA+ MintAPI melt machine (C05 table as allowed-outcome sets) + TLC trace validation of scripted Lightning answers",
+        text=SEQ + "Melts are driven with scripted backend answers (pay: success/pending/failed/error; status: notfound/error/failed/"
+             "pending/succeeded) resolved through melt, quote polls and state checks; TLC checks each resulting state against the "
+             "allowed-outcome table.",
+        note=TRUST),
+    "C06": dict(
+        category="exploration", design_ref="§5 C06",
+        technique="TLA+ MintAPI frame condition (reject => unchanged) checked by TLC on traces of adversarial histories",
+        text=SEQ + "Every refused request must leave the raw-store projection unchanged (up to the effective quote state) and a panic "
+             "is an event no action accepts.",
+        note=TRUST),
+    "C07": dict(
+        category="fault_enumeration", design_ref="§5 C07",
+        technique="crash/error enumeration at every storage/LN call on the real mint, post-crash traces validated by TLC against MintAPI + CrashOutcomes",
+        text="For 16 victim operations (swap, mint, melt with each Lightning outcome incl. internal settlement, pending-melt "
+             "resolution by poll and state check, rotation at run time and at start-up) the call sequence is measured and, for every "
+             "k, the process is killed before call k (goroutine frozen, store closed, mint reloaded from the same directory) and, "
+             "separately, call k fails; an adversarial follow-up runs on the restarted mint. TLC validates: post-crash state is "
+             "all-or-nothing per phase, every follow-up step conforms to MintAPI, no inflation. The space is enumerated completely.",
+        note="A crash is modelled between calls, not inside one (SQLite atomicity/durability trusted); the Lightning backend survives."),
+    "C09": dict(
+        category="model_checking", design_ref="§5 C09",
+        technique="TLA+ MintAPI keyset component + TLC trace validation over rotation/restart histories",
+        text=SEQ + "Histories interleave restarts, start-up and run-time rotations with fees {0,100,1000,2500} and traffic on old and "
+             "new keysets; keyset listings are operations of the history checked against the spec state; fees are charged per input keyset.",
+        note=TRUST),
+    "C15": dict(
+        category="model_checking", design_ref="§5 C15",
+        technique="TLA+ MintAPI StateCheckTruth/RestoreTruth evaluated by TLC after every step of every history",
+        text=SEQ + "After every state-changing step a state check over all known/unknown/repeated/malformed Ys and a restore over all "
+             "known/unknown/repeated B_s are issued; TLC compares the replies (order, state, witness, amount, keyset, C_/DLEQ tag) with the spec state.",
+        note=TRUST),
+    "C16": dict(
+        category="model_checking", design_ref="§5 C16",
+        technique="TLA+ MintAPI balances/limits + TLC trace validation",
+        text=SEQ + "Issued/redeemed per keyset, balance and info.disabled are queried after every step and compared by TLC with sums over the spec state.",
+        note=TRUST),
 }
 
 NOT_YET = {
